@@ -74,6 +74,7 @@ class Profile:
     min_host_events: int = 1
     causal_sync: bool = False                   # shrink kernels so that every synchronising call returns after the work it waits for
     p_sync_touch: float = 0.0                   # a sync record ends exactly when a kernel of its stream starts
+    p_fifo_overlap: float = 0.0                 # a kernel starts 1-2 units before the previous kernel of its stream ends (tolerated -1 edges)
     more_inner_annotations: bool = False        # user annotations with operator children inside operators (events without graph nodes inside the nest)
     n_pad: Tuple[int, int] = (0, 0)              # extra small host ops on their own thread (pushes row ids past 127 / 32767)
 
@@ -264,6 +265,8 @@ class Gen:
                     if rng.random() >= p.p_same_ts_as_launch:
                         base += rng.randint(0, max(1, T // 4))
                     ts = max(base, free_at[s] + (0 if rng.random() < 0.3 else rng.randint(0, 3)))
+                    if p.p_fifo_overlap > 0 and rng.random() < p.p_fifo_overlap and free_at[s] - 2 >= base and free_at[s] >= 2:
+                        ts = free_at[s] - rng.choice([1, 1, 2])
                     free_at[s] = ts + dur
                 else:
                     ts = rng.randint(l["ts"] if p.kernel_causal else 0, T)
@@ -564,5 +567,8 @@ _reg(Profile(name="kseq", tmax_choices=(24, 40, 110, 600), n_ranks=(1, 2), n_thr
 _reg(Profile(name="cp", tmax_choices=(20, 40, 110, 600), n_ranks=(1, 2), n_threads=(1, 2), max_depth=4, p_zero_dur=0.0, p_launch=0.55, p_mem_launch=0.3,
              p_missing_kernel=0.1, p_orphan_kernel=0.1, n_steps=(0, 3), p_kernel_zero=0.03, p_same_ts_as_launch=0.1, p_sync=0.6, causal_sync=True,
              p_sync_touch=0.8, more_inner_annotations=True, n_streams=(1, 3), epoch_choices=(0, 1000000)))
+_reg(Profile(name="cp_neg", tmax_choices=(20, 40, 110), n_ranks=(1, 1), n_threads=(1, 2), max_depth=4, p_zero_dur=0.0, p_launch=0.6, p_mem_launch=0.3,
+             p_missing_kernel=0.1, n_steps=(0, 2), p_same_ts_as_launch=0.1, p_sync=0.3, causal_sync=True, p_fifo_overlap=0.5, kernel_causal=False,
+             n_streams=(1, 2), epoch_choices=(0, 1000000)))
 _reg(Profile(name="cp_tiny", tmax_choices=(10, 14, 20), n_ranks=(1, 1), n_threads=(1, 2), max_depth=3, p_zero_dur=0.0, p_launch=0.6, p_mem_launch=0.3,
              n_steps=(0, 2), p_kernel_zero=0.05, p_same_ts_as_launch=0.3, p_sync=0.7, causal_sync=True, p_sync_touch=0.8, more_inner_annotations=True, n_streams=(1, 2), epoch_choices=(0,)))
